@@ -459,6 +459,9 @@ class MailboxData(MailboxDataInterface[Message]):
     async def reset(self) -> MailboxData:
         keys = await self._get_keys()
         async with UidList.with_write(self._path) as uidl:
+            if not UidList.file_exists(self._path):
+                # the UIDVALIDITY that is reported must be the one kept
+                uidl.touch()
             for rec in uidl.records:
                 keys.pop(rec.key, None)
             for key, info in keys.items():
